@@ -304,6 +304,28 @@ CheckPower(p, k) ==
 ASSUME \A p \in PIDs : \A k \in DOMAIN UnitsOf(p) : ~Active("C08_overlap") \/ CheckPaste(p, k)
 ASSUME \A p \in PIDs : \A k \in DOMAIN UnitsOf(p) : ~Active("C18_powered") \/ ~WiresOK(UnitsOf(p)[k]) \/ CheckPower(p, k)
 
+(* C12, static part: "no signal of one computation is ever visible to a combinator or entity of the other".  A record of an          *)
+(* interleaved program says which program each top-level statement came from (`owner`); every entity of the blueprint that can be      *)
+(* attributed (by the line in its label, or - for user entities - by the place statement at its tile) must share every circuit         *)
+(* network only with entities of its own program.  Relay poles belong to nobody.                                                       *)
+OwnerOfLine(p, ln) == LET ss == Stmts(p)  I == {i \in DOMAIN ss : LineOf(ss, i) = ln} IN IF I = {} THEN "" ELSE Recs[p].owner[CHOOSE i \in I : TRUE]
+OwnerOfEntity(p, u, e) ==
+  IF KindT[u][e] = "P" THEN ""
+  ELSE IF KindT[u][e] = "E"
+  THEN LET ss == Stmts(p)
+           I == {i \in DOMAIN ss : ss[i].k = "place" /\ ss[i].x.k = "num" /\ ss[i].y.k = "num" /\ Ents(u)[e].name = ss[i].proto
+                                   /\ Ents(u)[e].position.x.f2 = 2 * ss[i].x.v + FootW(ss[i].proto) /\ Ents(u)[e].position.y.f2 = 2 * ss[i].y.v + FootH(ss[i].proto)}
+       IN IF I = {} THEN "" ELSE Recs[p].owner[CHOOSE i \in I : TRUE]
+  ELSE OwnerOfLine(p, Desc(u, e).line)
+CheckIsolated(p) ==
+  LET u == U(p)
+      A == AdjMap(u)
+      pts == {<<e, c>> : e \in Ids(u), c \in 1..4}
+      owners(C) == {OwnerOfEntity(p, u, q[1]) : q \in C} \ {""}
+      bad == {C \in {Reach(A, {q}, {q}) : q \in pts} : Cardinality(owners(C)) > 1}
+  IN bad = {} \/ Fail(p, "C12_isolated", [networks |-> {{<<Ents(u)[q[1]].name, Desc(u, q[1]).raw, q[2], OwnerOfEntity(p, u, q[1])>> : q \in {x \in C : OwnerOfEntity(p, u, x[1]) # ""}} : C \in bad}])
+ASSUME \A p \in PIDs : ~Active("C12_isolated") \/ "owner" \notin DOMAIN Recs[p] \/ ~WiresOK(U(p)) \/ CheckIsolated(p)
+
 (* C11_range: every constant placed in an accepted blueprint is a signed 32-bit value (the encoder reports the others) *)
 ASSUME \A p \in PIDs : \A k \in DOMAIN UnitsOf(p) :
          LET o == Get(BPs[UnitsOf(p)[k]], "oor", <<>>) IN Len(o) = 0 \/ Fail(p, "C11_range", [unit |-> k, constants |-> o])
